@@ -169,6 +169,37 @@ func rulesC08(c *Ctx) {
 		c.Check(wr.heldLocal(g.Node(av[0]))[lkStream], "Write:append-under-stream-lock", wr, g.Node(av[0]), "eventStore.Append runs with the stream lock held (held: %s); otherwise a resume can replay a message that is then delivered again live with the next id", setString(wr.heldLocal(g.Node(av[0]))))
 		c.Check(wr.heldLocal(g.Node(dv[0]))[lkStream], "Write:deliver-under-stream-lock", wr, g.Node(dv[0]), "deliverLocked runs with the stream lock held")
 		c.Check(g.ReachableFrom(av[0])[dv[0]] && !g.ReachableFrom(dv[0])[av[0]], "Write:append-before-deliver", wr, g.Node(dv[0]), "the message is stored before it is delivered")
+		// the gate of the append is exactly "a store is configured and the protocol is resumable": the conditions that
+		// guard the append but not the delivery must all be of these two kinds (a narrower gate, e.g. by response mode,
+		// leaves delivered SSE events without a stored copy: they cannot be replayed and later ids shift)
+		dGuards := map[string]bool{}
+		for _, a := range g.GuardsAt(dv[0]) {
+			dGuards[a.String()] = true
+		}
+		nGate := 0
+		for _, a := range g.GuardsAt(av[0]) {
+			if dGuards[a.String()] {
+				continue
+			}
+			if b, isB := a.E.(*ast.BinaryExpr); isB && (b.Op == token.LAND || b.Op == token.LOR) {
+				continue // its conjuncts are listed separately
+			}
+			if u, isU := a.E.(*ast.UnaryExpr); isU && u.Op == token.NOT {
+				continue // the operand is listed separately with the opposite polarity
+			}
+			nGate++
+			rec := false
+			if x, twn, isNil := NilTest(a.E); isNil && wr.IsField(x, esF) && a.Val != twn {
+				rec = true
+			}
+			if x, y, op, isCmp := binaryCmp(a.E); isCmp && a.Val && op == token.LSS && wr.ObjOf(y) == c.Obj(pM, "protocolVersion20260728") {
+				if o := wr.ObjOf(x); o != nil && o == wr.VarFromCall(c.FnObj(pM, "", "protocolVersionFromContext"), 0) {
+					rec = true
+				}
+			}
+			c.Check(rec, "Write:append-gate#"+itoa(nGate), wr, a.E, "the append is conditional only on eventStore != nil and protocol version < 2026-07-28 (found %s)", a.String())
+		}
+		c.Pin("conditions that gate the append alone", nGate, 2)
 		// no explicit unlock of the stream lock anywhere in Write (it is deferred)
 		unl := 0
 		for _, call := range wr.AllCalls(wr.Body, false) {
